@@ -20,6 +20,7 @@ from vlib import coq_z, coq_list
 PID = "C02"
 FINDING = "C02-reopen-walphase"
 FINDING_MS = "C02-mergeself-mintime-order"
+FINDING_FC = "C02-desc-filecursor-lastfile"
 VARIANTS = [(False, 0), (True, 0), (False, 1), (False, 2), (True, 1), (True, 2)]  # (wal replay current, merge-self mode)
 
 
@@ -102,7 +103,7 @@ def model_ops(h):
             g, gone = groups_of(bo, ao)
             if gone:
                 txt = "Compact %s" % coq_list([coq_list([coq_z(x) for x in grp]) for grp in g])
-        elif k == "MO":
+        elif k in ("MO", "MOB"):
             gone = [s for s in bu if s not in au]
             if gone:
                 txt = "MergeOOO %s %s" % (coq_list([coq_z(x) for x in gone]), bounds_of(files))
@@ -213,6 +214,53 @@ def ms_signature(h):
     return None
 
 
+def fc_signature(h, f):
+    """signature of C02-desc-filecursor-lastfile for ONE failing read f of history h: f is a statement-level aggregate read
+    on the file-cursor path with ORDER BY time DESC; when it ran the measurement had >= 2 ordered files; and for the
+    failing series some ordered file OTHER than the newest one (the one a descending walk visits first and wrongly treats
+    as the last) holds the series in a time range that, inside the query range, meets newer data of the series: a row
+    still in the memtable / snapshot table, or the range of an out-of-order file."""
+    if not f.get("xread") or (f.get("read") or {}).get("kind") != "agg" or not f["read"].get("desc"):
+        return False
+    s, opi = f.get("series"), f["op"]
+    if s is None or s < 0 or opi >= len(h["ops"]):
+        return False
+    files = h["ops"][opi].get("files") or []
+    ordered = [x for x in files if x["order"]]
+    if len(ordered) < 2:
+        return False
+    # rows not yet in files when the read ran
+    mem, snap = set(), set()
+    for o in h["ops"][:opi + 1]:
+        k = o["k"]
+        if k == "W" and not o.get("err"):
+            mem |= {(r["s"], r["t"]) for r in o["rows"]}
+        elif k == "F":
+            mem = set()
+        elif k == "FB" and not o.get("err"):
+            snap, mem = mem, set()
+        elif k == "FE":
+            snap = set()
+        elif k == "R":
+            mem, snap = set(), set()
+    tmin, tmax = f["read"]["tmin"], f["read"]["tmax"]
+    for of in ordered[:-1]:
+        for x in of["series"] or []:
+            if x["s"] != s:
+                continue
+            lo, hi = max(tmin, x["min"]), min(tmax, x["max"])
+            if lo > hi:
+                continue
+            if any(ks == s and lo <= kt <= hi for (ks, kt) in mem | snap):
+                return True
+            for uf in files:
+                if not uf["order"]:
+                    for y in uf["series"] or []:
+                        if y["s"] == s and max(lo, y["min"]) <= min(hi, y["max"]):
+                            return True
+    return False
+
+
 # ---------------------------------------------------------------------------------------------------------------
 
 def eval_model(ck, hs, ok):
@@ -307,6 +355,11 @@ def main(ck):
     res = eval_model(ck, hs, ok)
 
     # ---- verdicts
+    # entries of the committed per-property fragment that the merged known_findings.json does not hold yet
+    frag = os.path.join(ck.verif, "props", PID, "findings.json")
+    if os.path.exists(frag):
+        have = {f["id"] for f in ck.findings}
+        ck.findings += [f for f in json.load(open(frag))["findings"] if f["property"] == PID and f["id"] not in have]
     finding = ck.match_finding(FINDING)
     finding_ms = ck.match_finding(FINDING_MS)
     # self-test knob (can only make the check stricter): treat the named open findings as already fixed
@@ -315,6 +368,10 @@ def main(ck):
         finding = None
     if FINDING_MS in treat_fixed:
         finding_ms = None
+    finding_fc = ck.match_finding(FINDING_FC)
+    if FINDING_FC in treat_fixed:
+        finding_fc = None
+    fc_cases, fc_eligible = 0, 0
     viol = 0
     sig_cases, ms_cases = 0, 0
     reproduced = set()
@@ -323,9 +380,23 @@ def main(ck):
         msig = ms_signature(h)
         sig_cases += sig is not None
         ms_cases += msig is not None
-        fails = h.get("oracle") or []
+        fails = (h.get("oracle") or []) + [dict(f, xread=True) for f in (h.get("xoracle") or [])]
         if not fails:
             continue
+        fails.sort(key=lambda f: f["op"])
+        # failing reads inside the signature of the descending file-cursor finding are set aside first (each read is
+        # decided on its own); whatever remains goes through the variant-based classification below
+        if finding_fc is not None:
+            rest = [f for f in fails if not fc_signature(h, f)]
+            if len(rest) < len(fails):
+                fc_cases += 1
+                reproduced.add(FINDING_FC)
+                ck.known_finding(FINDING_FC, "an aggregate with ORDER BY time DESC on the file-cursor path sees both versions of a point "
+                                 "that was overwritten after its older version reached an ordered file other than the newest")
+                ck.cov.setdefault("known_finding_cases", []).append({"history": h["case"], "desc_filecursor_reads": len(fails) - len(rest)})
+            fails = rest
+            if not fails:
+                continue
         first = min(f["op"] for f in fails)
         explained = None
         if res is not None:
@@ -353,13 +424,15 @@ def main(ck):
             viol += 1
             if viol <= 3:
                 slim = dict(h)
-                slim["ops"] = [{k: v for k, v in o.items() if k in ("k", "rows", "level")} for o in h["ops"]]
+                slim["ops"] = [{k: v for k, v in o.items() if k in ("k", "rows", "level", "bg")} for o in h["ops"]]
+                slim.pop("oracle", None)
+                slim.pop("xoracle", None)
                 ck.violation({"kind": "direct-oracle", "what": fails[0]["what"], "first_failure": fails[0], "failures": len(fails),
                               "history": slim, "wal_signature_op": sig, "merge_self_signature_op": msig,
                               "model": {"%s/%s" % v: (res[v].get(idx) if res else None) for v in VARIANTS}})
     if res is not None:
         for idx, h in enumerate(hs):
-            if h.get("oracle") or h.get("crash"):
+            if h.get("oracle") or h.get("xoracle") or h.get("crash"):
                 continue
             mm = res[(False, 0)].get(idx)
             if mm is not None:
@@ -368,13 +441,16 @@ def main(ck):
                     h["case"], opi, h["ops"][opi]["k"] if 0 <= opi < len(h["ops"]) else "?", CODES.get(code, code)))
                 if not hasattr(ck, "nofail_detail"):
                     slim = dict(h)
-                    slim["ops"] = [{k: v for k, v in o.items() if k in ("k", "rows", "level", "files")} for o in h["ops"]]
+                    slim["ops"] = [{k: v for k, v in o.items() if k in ("k", "rows", "level", "files", "bg")} for o in h["ops"]]
                     ck.nofail_detail = {"kind": "correspondence", "code": CODES.get(code, code), "op": opi, "history": slim,
                                         "explanation": "model and implementation differ although the direct oracle (Go LWW map) "
                                                        "found every read correct"}
                 if len(ck.broken) > 6:
                     break
-    for fid, fobj, n in ((FINDING, finding, sig_cases), (FINDING_MS, finding_ms, ms_cases)):
+    fc_eligible = sum(1 for h in hs if (h.get("xkinds") or {}).get("agg-desc") and any(
+        len([x for x in (o.get("files") or []) if x["order"]]) >= 2 for o in h["ops"]))
+    ck.cov["desc_filecursor_finding_histories"] = fc_cases
+    for fid, fobj, n in ((FINDING, finding, sig_cases), (FINDING_MS, finding_ms, ms_cases), (FINDING_FC, finding_fc, fc_eligible)):
         if fobj is not None and fid not in reproduced and n > 0:
             ck.notes.append("open finding %s did not reproduce on %d eligible histories: stale (tree looks repaired)" % (fid, n))
 
@@ -382,10 +458,14 @@ def main(ck):
     hist, flags = {}, {}
     nontriv = set()
     queries = 0
+    xkinds = {}
     for h in hs:
-        queries += h.get("queries", 0)
+        queries += h.get("queries", 0) + h.get("xreads", 0)
+        for k, v in (h.get("xkinds") or {}).items():
+            xkinds[k] = xkinds.get(k, 0) + v
         for o in h["ops"]:
-            hist[o["k"]] = hist.get(o["k"], 0) + 1
+            kk = o["k"] + ("(background tick)" if o.get("bg") and o["k"] != "BG" else "")
+            hist[kk] = hist.get(kk, 0) + 1
         for k, v in (h.get("flags") or {}).items():
             if v:
                 flags[k] = flags.get(k, 0) + 1
@@ -400,6 +480,16 @@ def main(ck):
                       "out-of-order files / was compacted / merged / read with a live snapshot table / reopened; distinct = different "
                       "op lists. evaluations = cursor reads checked against the Go LWW oracle")
     ck.cov["op_histogram"] = hist
+    ck.cov["statement_level_reads_by_kind"] = xkinds
+    ck.cov["histories_with_background_tick_after_every_flush"] = sum(1 for h in hs if h.get("auto"))
+    ck.cov["read_paths"] = {
+        "plain rows (shard.CreateCursor drained directly)": "groupCursor -> tagSetCursor.NextWithoutPreAgg (heap merge of the series of a tag "
+            "set) -> seriesCursor (memtable over files) -> tsmMergeCursor (out-of-order over ordered) -> LocationCursor; asc and desc, "
+            "GROUP BY host and flat with aux tag, 1-4 group cursors",
+        "zone": "same chain below a ChunkReader, tag sets holding several series (GROUP BY zone, host as aux tag)",
+        "limit": "LIMIT/OFFSET push-down: lazily initialised tag-set/series cursors, groupCursor.limitBound, itrsInitWithLimit (SELECT *)",
+        "agg": "FILE-CURSOR path: AggTagSetCursor -> fileLoopCursor -> fileCursor.readData with the exact-statistics hint "
+               "(initMergeIters folds memtable and out-of-order files newest first, getMemEndIndex cuts them at each ordered chunk's range)"}
     ck.cov["history_flags"] = flags
     ck.cov["wal_signature_histories"] = sig_cases
     ck.cov["merge_self_signature_histories"] = ms_cases
